@@ -452,6 +452,9 @@ fn child17(scen_seed: u64) -> i32 {
 /// the real code single-threaded (reference rendering into a Vec), so the check is about
 /// interleaving only.
 fn judge17(scen_seed: u64, r: &RunResult) -> Result<u64, (String, String)> {
+    if miri_unsupported(r) {
+        return Err((INCONCLUSIVE.into(), "Miri does not support a host call this build makes".into()));
+    }
     if r.status != 0 {
         let err_text = String::from_utf8_lossy(&r.err).to_string();
         let class = if err_text.contains("Undefined Behavior") || err_text.contains("Data race") { "miri-undefined-behaviour" } else { "child-failed" };
@@ -539,6 +542,9 @@ fn child09(scen_seed: u64) -> i32 {
 }
 
 fn judge09(_scen_seed: u64, r: &RunResult) -> Result<u64, (String, String)> {
+    if miri_unsupported(r) {
+        return Err((INCONCLUSIVE.into(), "Miri does not support a host call this build makes".into()));
+    }
     let err_text = String::from_utf8_lossy(&r.err).to_string();
     if r.status == 3 || err_text.contains("#DECISION-VIOLATION") {
         let line = err_text.lines().find(|l| l.contains("#DECISION-VIOLATION")).unwrap_or("").to_string();
@@ -723,8 +729,20 @@ fn scenario_text(sc: &Scenario) -> String {
     s
 }
 
+/// Miri cannot execute every host call (e.g. `writev`, which std uses for `write_vectored` on the
+/// std handles).  Such an execution decides nothing: it is counted as inconclusive, never as a
+/// violation.
+fn miri_unsupported(r: &RunResult) -> bool {
+    r.status != 0 && String::from_utf8_lossy(&r.err).contains("error: unsupported operation")
+}
+
+const INCONCLUSIVE: &str = "inconclusive";
+
 /// Judge one Miri execution.  Ok(order hash) or Err((class, detail)).
 fn judge(sc: &Scenario, r: &RunResult) -> Result<u64, (String, String)> {
+    if miri_unsupported(r) {
+        return Err((INCONCLUSIVE.into(), "Miri does not support a host call this build makes".into()));
+    }
     let err_text = String::from_utf8_lossy(&r.err).to_string();
     if r.status == 3 || err_text.contains("#REGISTER-VIOLATION") {
         let line = err_text.lines().find(|l| l.contains("#REGISTER-VIOLATION")).unwrap_or("").to_string();
@@ -792,6 +810,7 @@ fn drive(seed: u64, first: u64, count: u64, report: &str) -> i32 {
     let mut results = results.into_inner().unwrap();
     results.sort_by_key(|r| r.0);
     let mut orders = std::collections::BTreeSet::new();
+    let mut inconclusive = 0u64;
     let mut by_rate = std::collections::BTreeMap::new();
     let mut violation = String::from("null");
     let mut harness_error = String::from("null");
@@ -815,6 +834,9 @@ fn drive(seed: u64, first: u64, count: u64, report: &str) -> i32 {
             Err((class, detail)) if class == "harness" => {
                 harness_error = json_str(detail);
             }
+            Err((class, _)) if class == INCONCLUSIVE => {
+                inconclusive += 1;
+            }
             Err((class, detail)) => {
                 if violation == "null" {
                     violation = format!(
@@ -832,7 +854,7 @@ fn drive(seed: u64, first: u64, count: u64, report: &str) -> i32 {
     }
     let rates: Vec<String> = by_rate.iter().map(|(k, v)| format!("\"{k}\": {v}")).collect();
     let rep = format!(
-        "{{\"executions\": {}, \"distinct_record_orders\": {}, \"by_preemption_rate\": {{{}}}, \"digest\": \"{digest:016x}\", \"wall_s\": {:.3}, \"workers\": {workers}, \"violation\": {violation}, \"harness_error\": {harness_error}, \"samples\": [{}]}}",
+        "{{\"executions\": {}, \"inconclusive_unsupported_by_miri\": {inconclusive}, \"distinct_record_orders\": {}, \"by_preemption_rate\": {{{}}}, \"digest\": \"{digest:016x}\", \"wall_s\": {:.3}, \"workers\": {workers}, \"violation\": {violation}, \"harness_error\": {harness_error}, \"samples\": [{}]}}",
         results.len(),
         orders.len(),
         rates.join(", "),
@@ -888,6 +910,7 @@ fn drive_role(role: &str, judge: fn(u64, &RunResult) -> Result<u64, (String, Str
     let mut results = results.into_inner().unwrap();
     results.sort_by_key(|r| r.0);
     let mut orders = std::collections::BTreeSet::new();
+    let mut inconclusive = 0u64;
     let mut violation = String::from("null");
     let mut harness_error = String::from("null");
     for (_, miri_seed, rate, scen_seed, verdict) in &results {
@@ -896,6 +919,7 @@ fn drive_role(role: &str, judge: fn(u64, &RunResult) -> Result<u64, (String, Str
                 orders.insert((*scen_seed, *h));
             }
             Err((class, detail, _, _)) if class == "harness" => harness_error = json_str(detail),
+            Err((class, _, _, _)) if class == INCONCLUSIVE => inconclusive += 1,
             Err((class, detail, out, err)) => {
                 if violation == "null" {
                     violation = format!(
@@ -907,7 +931,7 @@ fn drive_role(role: &str, judge: fn(u64, &RunResult) -> Result<u64, (String, Str
         }
     }
     let rep = format!(
-        "{{\"executions\": {}, \"distinct_frame_orders\": {}, \"wall_s\": {:.3}, \"violation\": {violation}, \"harness_error\": {harness_error}}}",
+        "{{\"executions\": {}, \"inconclusive_unsupported_by_miri\": {inconclusive}, \"distinct_frame_orders\": {}, \"wall_s\": {:.3}, \"violation\": {violation}, \"harness_error\": {harness_error}}}",
         results.len(), orders.len(), start.elapsed().as_secs_f64()
     );
     if std::fs::write(report, rep).is_err() {
